@@ -8,7 +8,7 @@ From LV Require Import Base.Bytes Base.Sx Model.Obj Model.Writer Model.Parser Mo
 From LV Require Proofs.LoadProofsStream.
 From LV Require Import Model.LoaderExt Proofs.LoaderExtProofs Proofs.LengthRefProofs.
 From LV Require Import Proofs.LoadsFilterProofs Proofs.LoadsStreamProofs Proofs.LoadsRefLenProofs Proofs.LoadsLoopProofs.
-From LV Require Import Proofs.ObjStmSpellProofs Proofs.ObjStmFilterProofs Proofs.LoadsObjStmProofs.
+From LV Require Import Proofs.ObjStmSpellProofs Proofs.ObjStmFilterProofs Proofs.LoadsObjStmProofs Proofs.ObjStmPredProofs.
 From LV Require Model.Png Spec.StreamCodecSpec Model.StreamFilt Gen.SaveFmt.
 From Coq Require Import Lia.
 Local Open Scope N_scope.
@@ -64,11 +64,12 @@ Section GenFile.
     match os_build (a_objs a) (os_members s) (os_items s) true with Some it => it | None => [] end.
 
   (* what the theorem asks of a container: members that can be spelled (rung 2's domain), sizes lopdf's types hold
-     (the index of a member in its container is a u16, offsets u32), no predictor on the container *)
+     (the index of a member in its container is a u16, offsets u32 -- the payload with the spaces a predictor's rows may
+     add --, a predictor's row width a machine integer) *)
   Definition cont_ok (s : ostm) : Prop :=
     os_members s <> [] /\ N.of_nat (length (os_members s)) <= 65536 /\
     Forall (fun oy => mem_ok (fst oy) (snd oy)) (os_pairs (a_objs a) (os_members s) (os_items s)) /\
-    N.of_nat (length (flat_map oi_text (itemsof s))) <= u32_max /\ no_pred (os_filter s) /\
+    N.of_nat (length (flat_map oi_text (itemsof s)) + pad_max (os_filter s)) <= u32_max /\ pred_row_ok (os_filter s) /\
     spell_wf (ODict (dC s (itemsof s))) (i_obj (os_istyle s)) /\ (nest (ODict (dC s (itemsof s))) <= MAX_DEPTH)%nat.
 
   (* the domain *)
@@ -738,8 +739,8 @@ Section GenFile.
     indirect_x FG XG (top_text tp ++ body_of post ++ TAILG) None =
       IxOk (os_id s, 0) (OStream (D s (itemsof s) (cstsG s)) (fst (enc s (itemsof s)))) None /\
     has_type (D s (itemsof s) (cstsG s)) K_ObjStm = true /\
-    exists d', objstm_new decompress_ref (D s (itemsof s) (cstsG s)) (fst (enc s (itemsof s))) =
-               ((d', payload s (itemsof s)), OsOk (members_val (a_objs a) s (itemsof s))).
+    exists d' k, objstm_new decompress_ref (D s (itemsof s) (cstsG s)) (fst (enc s (itemsof s))) =
+                 ((d', payload s (itemsof s) ++ repeat x20 k), OsOk (members_val (a_objs a) s (itemsof s))).
   Proof.
     intros Eo Hs [o [Ho ->]]. pose proof (cont_build s Hs) as Hb.
     rewrite (os_object_eq (a_objs a) s (itemsof s) Hb) in Ho. inversion Ho; subst o. clear Ho.
@@ -758,7 +759,7 @@ Section GenFile.
       destruct A as [pos [-> [->|[d0 [K Kn]]]]]; [reflexivity|].
       exfalso. exact (stream_new_has_length _ _ _ _ K Kn).
     - unfold has_type. rewrite (dC_get s (itemsof s) (cstsG s) K_Type (OName (bs "ObjStm"))); [reflexivity|reflexivity|reflexivity|discriminate].
-    - apply (objstm_new_ref (a_objs a) s (itemsof s) (cstsG s) Hb Hne); try assumption.
+    - apply (objstm_new_ref_any (a_objs a) s (itemsof s) (cstsG s) Hb Hne); try assumption.
       + apply (NoDup_flat_in os_members (s_ostms st) s Hcnd Hs).
       + apply Forall_forall. intros m Hm. destruct (member_facts s m Hs Hm) as [_ [_ [_ [_ [_ K]]]]].
         destruct Hsmall as [_ [Hs' _]]. unfold sizeG in Hs'. lia.
@@ -788,11 +789,11 @@ Section GenFile.
         { unfold objfG. rewrite Hnx, Hfc, <- Hn, (find_top_in tp Hin). reflexivity. }
         rewrite Fr, Eobj. rewrite <- Fr in P1. rewrite (Hpos _ _ _ P1). rewrite Fr in P1. rewrite <- Ek.
         split; [exact P1|]. split; [exact P2|exact P3].
-      + destruct (parse_cont s tp pre post Eo Hs Hc) as [Q0 [Q1 [Q2 [d' Q3]]]].
+      + destruct (parse_cont s tp pre post Eo Hs Hc) as [Q0 [Q1 [Q2 [d' [kp Q3]]]]].
         rewrite Ek in Q0. rewrite <- Q0 in Q1.
         assert (Efc : find_cont n = Some s) by (replace n with (os_id s) by (inversion Q0; reflexivity); apply find_cont_in; exact Hs).
         unfold memfG. rewrite Efc.
-        exists (D s (itemsof s) (cstsG s)), (fst (enc s (itemsof s))), d', (payload s (itemsof s)).
+        exists (D s (itemsof s) (cstsG s)), (fst (enc s (itemsof s))), d', (payload s (itemsof s) ++ repeat x20 kp).
         rewrite Fr. rewrite <- Fr in Q1. rewrite (Hpos _ _ _ Q1). rewrite Fr in Q1.
         split; [exact Q1|]. split; [exact Q2|]. split; [unfold filters_modelled, can_ref; apply orb_true_r|]. split; [exact Q3|].
         unfold objfG. rewrite Hnx, Efc. unfold cont_loaded. rewrite Q3. reflexivity.
@@ -1048,7 +1049,8 @@ Section GenFile.
       apply otopG_in. unfold gtops. apply in_or_app. left. exact Hpt.
   Qed.
 
-  Lemma loaded_cont s : In s (s_ostms st) -> exists d', lookup OBJS (os_id s, 0) = Some (OStream d' (payload s (itemsof s))).
+  Lemma loaded_cont s : In s (s_ostms st) ->
+    exists d' k, lookup OBJS (os_id s, 0) = Some (OStream d' (payload s (itemsof s) ++ repeat x20 k)).
   Proof.
     intro Hs. destruct (cont_entry s Hs) as [off He].
     destruct (entry_specG _ _ _ He) as [_ K]. unfold memfG in K. rewrite (find_cont_in s Hs) in K.
@@ -1056,8 +1058,8 @@ Section GenFile.
     destruct (Forall2_In_l _ _ _ s conts_spec Hs) as [tp [Htp Hc]].
     assert (Hin : In tp gotops) by (apply otopG_in; unfold gtops; apply in_or_app; right; exact Htp).
     destruct (in_split _ _ Hin) as [pre [post Eo]].
-    destruct (parse_cont s tp pre post Eo Hs Hc) as [_ [_ [_ [d2 Q3]]]].
-    exists d2. rewrite OBJS_lookup, no_pos_other.
+    destruct (parse_cont s tp pre post Eo Hs Hc) as [_ [_ [_ [d2 [kp Q3]]]]].
+    exists d2, kp. rewrite OBJS_lookup, no_pos_other.
     - rewrite M1_lookup, M0_lookup, (hit_entry _ _ _ He). cbn [fst snd]. unfold objfG.
       replace (os_id s =? gxid) with false.
       2:{ symmetry. apply N.eqb_neq. intro E. apply (proj2 gxid_fresh). rewrite <- E. unfold cids. apply in_map. exact Hs. }
@@ -1097,7 +1099,8 @@ Section GenFile.
       d_version d = a_version a /\ d_trailer d = tG /\
       (forall tp, In tp ptops -> lookup (d_objects d) (fst (fst tp)) = Some (loaded_top tp)) /\
       (forall s n, In s (s_ostms st) -> In n (os_members s) -> lookup (d_objects d) (n, 0) = Some (member_val (a_objs a) s n)) /\
-      (forall s, In s (s_ostms st) -> exists d', lookup (d_objects d) (os_id s, 0) = Some (OStream d' (payload s (itemsof s)))) /\
+      (forall s, In s (s_ostms st) ->
+                 exists d' k, lookup (d_objects d) (os_id s, 0) = Some (OStream d' (payload s (itemsof s) ++ repeat x20 k))) /\
       lookup (d_objects d) (gxid, 0) = Some (stream_new ddG data) /\
       (forall id o, lookup (d_objects d) id = Some o ->
          (exists tp, In tp ptops /\ fst (fst tp) = id) \/
